@@ -121,6 +121,10 @@ type execResult struct {
 
 var activeProp string
 
+// crashFile, when set (MC_CRASHFILE), receives the choice prefix of the
+// execution that is about to run.
+var crashFile = os.Getenv("MC_CRASHFILE")
+
 // Active reports whether oracles of property prop are enabled in this run.
 func Active(prop string) bool { return activeProp == "" || activeProp == prop }
 
@@ -346,6 +350,12 @@ func Explore(t *testing.T, sc *Scenario, opt Options, flush func(*Result)) *Resu
 		var r execResult
 		lastStart.Store(time.Now().UnixNano())
 		curPrefix.Store(append([]int(nil), w.prefix...))
+		if crashFile != "" {
+			// Lets the dispatcher emit a replay if a goroutine spawned by
+			// the code under test crashes the whole process.
+			b, _ := json.Marshal(w.prefix)
+			os.WriteFile(crashFile, b, 0o644)
+		}
 		for attempt := 0; ; attempt++ {
 			r = runOnce(t, sc, w.prefix, w.expect, len(w.prefix), onStuck, visit, false)
 			if r.diverged == "" {
